@@ -4,6 +4,11 @@ manifest is always valid)."""
 import json, sys
 
 CHECKS = {
+ "C16": dict(
+   text="Race freedom of one state trie by guarded-by discipline, decided for every call path from the trie operations named in the property and the exported store/collector methods: root, deleteNodes, missing-key list, store maps, level links and collector maps only under their owner's mutex in the required mode (writes need the write lock; goroutine bodies start with nothing held); constructor-only fields never rewritten; Insert/Delete/MergeChanges/MergeDB are single critical sections (one write-lock acquisition dominating every root access, released by defer).",
+   note="Does not decide linearizability of histories (needs executions). SetVersion is outside the property's operation set and is not an entry. Locks are identified per (owner type, field). Trusted: go/ssa; own CHA call graph with function values resolved through parameters.",
+   technique="interprocedural must-lockset analysis over go/ssa + repo call graph, guard table per field, dominance check of critical sections",
+   ref="DESIGN.md section 5 C16"),
  "C20": dict(
    text="Structural necessary conditions of the in-memory log ring, decided on every path from the logger API: cursor, slot values and ring traversals only under the core's mutex (of the same core value); no core is built with a by-value copy of another core's cursor (one cursor, one lock per ring); entry objects are never rewritten once stored; Write stores at the cursor and then advances by exactly one Next().",
    note="Does not decide 'exactly the most recent N, newest first' (index arithmetic in GetLogs) for every history. Trusted: go/ssa; container/ring and zap as named APIs; lock identity per (owner type, field) plus a same-receiver check inside each function.",
